@@ -100,19 +100,27 @@ inductive Exit where
   | budget     -- iteration budget used up
   deriving Repr, DecidableEq
 
+/-- the height clamp applied at the start of every iteration -/
+def clampZ (lmin : α) (g : V6 α) : V6 α :=
+  if g.a.z < lmin / 2 then ⟨⟨g.a.x, g.a.y, lmin / 2⟩, g.b⟩ else g
+
+/-- the six residuals at the guess g = (position; rotation vector) -/
+def residuals (legs : List (Leg α)) (L : List α) (g : V6 α) : List α :=
+  List.zipWith (fkRes g.a (matrixExp3 (hat g.b))) legs L
+
 /-- the loop of `SPFKinSpaceR`; `fuel` is `max_iterations`, `it` the iterations already done -/
 def raphson (solve : List (List α) → List α → List α) (legs : List (Leg α)) (L : List α)
     (tolF tolA lmin : α) : Nat → Nat → V6 α → V6 α × Nat × Exit
   | 0, it, g => (g, it, Exit.budget)
-  | fuel + 1, it, g =>
-    let g := if g.a.z < lmin / 2 then (⟨⟨g.a.x, g.a.y, lmin / 2⟩, g.b⟩ : V6 α) else g
-    let R := matrixExp3 (hat g.b)
-    let f := List.zipWith (fkRes g.a R) legs L
-    if sumAbs f < tolF then (g, it + 1, Exit.residual)
+  | fuel + 1, it, g0 =>
+    if sumAbs (residuals legs L (clampZ lmin g0)) < tolF then (clampZ lmin g0, it + 1, Exit.residual)
+    else if sumAbs (solve (legs.map (dfdaRow (clampZ lmin g0) (matrixExp3 (hat (clampZ lmin g0).b))))
+                          (residuals legs L (clampZ lmin g0))) < tolA then
+      (clampZ lmin g0, it + 1, Exit.smallStep)
     else
-      let δ := solve (legs.map (dfdaRow g R)) f
-      if sumAbs δ < tolA then (g, it + 1, Exit.smallStep)
-      else raphson solve legs L tolF tolA lmin fuel (it + 1) (g + v6ofList δ)
+      raphson solve legs L tolF tolA lmin fuel (it + 1)
+        (clampZ lmin g0 + v6ofList (solve (legs.map (dfdaRow (clampZ lmin g0) (matrixExp3 (hat (clampZ lmin g0).b))))
+                                          (residuals legs L (clampZ lmin g0))))
 
 /-! Gaussian elimination with partial pivoting on an augmented matrix given as rows (what `np.linalg.solve` does
     up to the order of floating-point operations) -/
